@@ -491,3 +491,62 @@ func VerifC16ComponentOptions() {
 	vassert(gotA == wantA && gotB == wantB, "a component option reaches exactly the chat-model nodes it addresses, also when several designated options are derived from one base option")
 	vassert(lamSeen == 0, "a chat-model option never reaches a node of another component type")
 }
+
+// Options derived from one base option that already carries designations (so its path list has spare capacity):
+// every derived option keeps its own designations, whichever is derived or used first.
+func VerifC16DerivedOptions() {
+	ctx := context.Background()
+	vcfg("fifo", 1)
+	var rec []c16Recv
+	names := []string{"n1", "n2", "n3", "n4", "n5"}
+	g := NewGraph[map[string]any, map[string]any]()
+	prev := START
+	for _, k := range names {
+		key := k
+		_ = g.AddLambdaNode(key, InvokableLambdaWithOption(func(ctx context.Context, in map[string]any, opts ...c16OptA) (map[string]any, error) {
+			for _, o := range opts {
+				rec = append(rec, c16Recv{key, o.id, o.val})
+			}
+			return in, nil
+		}))
+		_ = g.AddEdge(prev, key)
+		prev = key
+	}
+	_ = g.AddEdge(prev, END)
+	r, err := g.Compile(ctx)
+	vassert(err == nil, "graph compiles")
+	v := vsymInt("v")
+	nBase := 1 + vchoose("base", 3)
+	base := WithLambdaOption(c16OptA{1, v})
+	for i := 0; i < nBase; i++ {
+		base = base.DesignateNode(names[i])
+	}
+	o1 := base.DesignateNode("n4")
+	o2 := base.DesignateNode("n5")
+	use := vchoose("use", 3)
+	var opts []Option
+	want := map[string]int{}
+	for i := 0; i < nBase; i++ {
+		want[names[i]] = 1
+	}
+	switch use {
+	case 0:
+		opts = []Option{o1}
+		want["n4"] = 1
+	case 1:
+		opts = []Option{o2}
+		want["n5"] = 1
+	case 2:
+		opts = []Option{base}
+	}
+	_, rerr := r.Invoke(ctx, map[string]any{"in": 1}, opts...)
+	vassert(rerr == nil, "run succeeds")
+	got := map[string]int{}
+	for _, x := range rec {
+		got[x.node]++
+		vassert(x.val == v, "the option arrives unchanged")
+	}
+	for _, k := range names {
+		vassert(got[k] == want[k], "an option derived from a base option reaches exactly the nodes of the base plus its own designation: "+k)
+	}
+}
